@@ -37,6 +37,11 @@ pub open spec fn framed(s: Seq<u8>, pt: int, min: int) -> bool {
     &&& (hdr_pad(s) ==> s[s.len() - 1] != 0)
 }
 
+/// the announced padding fits behind the fixed part of the packet (a padding count larger than that is nonsensical)
+pub open spec fn pad_fits(s: Seq<u8>, min: int) -> bool {
+    hdr_pad(s) ==> s[s.len() - 1] as int <= s.len() - min
+}
+
 /// the number of trailing padding octets announced by the packet (0 when the P bit is clear)
 pub open spec fn pad_count(s: Seq<u8>) -> int {
     if hdr_pad(s) {
@@ -219,6 +224,73 @@ pub open spec fn img_bye_reason(reason: Seq<u8>) -> Seq<u8> {
 pub open spec fn img_bye(padding: int, sources: Seq<u32>, reason: Seq<u8>) -> Seq<u8> {
     img_header(padding, sources.len() as int, 203, bye_size(sources.len() as int, padding, reason.len() as int))
         + img_u32s(sources, sources.len() as int) + img_bye_reason(reason) + img_padding(padding)
+}
+
+// ---- unknown packets and compound packets (RFC 3550 6.1) -------------------------------------------
+pub open spec fn unknown_ok(s: Seq<u8>) -> bool {
+    s.len() >= 4 && hdr_version(s) == 2 && hdr_bytes(s) == s.len()
+}
+
+pub open spec fn unknown_spec_parse(s: Seq<u8>) -> Result<(), crate::RtcpParseError> {
+    if s.len() < 4 {
+        Err(crate::RtcpParseError::Truncated { expected: 4, actual: s.len() as usize })
+    } else if hdr_version(s) != 2 {
+        Err(crate::RtcpParseError::UnsupportedVersion(hdr_version(s) as u8))
+    } else if s.len() < hdr_bytes(s) {
+        Err(crate::RtcpParseError::Truncated { expected: hdr_bytes(s) as usize, actual: s.len() as usize })
+    } else if s.len() > hdr_bytes(s) {
+        Err(crate::RtcpParseError::TooLarge { expected: hdr_bytes(s) as usize, actual: s.len() as usize })
+    } else {
+        Ok(())
+    }
+}
+
+pub open spec fn img_unknown(padding: int, type_: int, count: int, data: Seq<u8>) -> Seq<u8> {
+    img_header(padding, count, type_, 4 + data.len() + padding) + data + img_padding(padding)
+}
+
+/// length in bytes announced by the header that starts at `off`
+pub open spec fn tile_len(s: Seq<u8>, off: int) -> int {
+    4 * (be16(s, off + 2) + 1)
+}
+
+/// the chain of length fields starting at `off` partitions s[off..] into whole packets with nothing left over
+pub open spec fn tiles_ok(s: Seq<u8>, off: int) -> bool
+    decreases s.len() - off,
+{
+    if off < 0 || off > s.len() {
+        false
+    } else if off == s.len() {
+        true
+    } else if off + 4 > s.len() {
+        false
+    } else if off + tile_len(s, off) > s.len() {
+        false
+    } else {
+        tiles_ok(s, off + tile_len(s, off))
+    }
+}
+
+/// number of tiles from `off` (meaningful when tiles_ok)
+pub open spec fn tiles_count(s: Seq<u8>, off: int) -> nat
+    decreases s.len() - off,
+{
+    if off < 0 || off >= s.len() || off + 4 > s.len() || off + tile_len(s, off) > s.len() {
+        0
+    } else {
+        1 + tiles_count(s, off + tile_len(s, off))
+    }
+}
+
+// ---- RFC 4585 6.1 feedback packets ------------------------------------------------------------------
+// header(FMT in the count bits, PT=205 transport / 206 payload) | SSRC of packet sender | SSRC of media source | FCI
+pub open spec fn fb_ok(s: Seq<u8>, pt: int) -> bool {
+    framed(s, pt, 12)
+}
+
+/// the feedback control information: everything after the two SSRCs and before the padding trailer
+pub open spec fn fb_fci(s: Seq<u8>) -> Seq<u8> {
+    s.subrange(12, s.len() - pad_count(s))
 }
 
 // ---- error truthfulness (property C18) ------------------------------------------------------------
